@@ -108,21 +108,21 @@ type termWorld struct {
 	handler  int // 0 fast, 1 slow, 2 posts to the host non-blocking
 	drawer   bool
 
-	env   *sessionEnv
-	vx    *vaxis.Vaxis
-	pty   *simPTY
-	vt    *term.Model
-	ref   *simterm.Term
-	evs   []vaxis.Event
-	done  bool
+	env                *sessionEnv
+	vx                 *vaxis.Vaxis
+	pty                *simPTY
+	vt                 *term.Model
+	ref                *simterm.Term
+	evs                []vaxis.Event
+	done               bool
 	hostRows, hostCols int
 	winRow, winCol     int
-	panicEv string
-	opNo    int
-	drawsDone int
-	drawBusy  bool
-	capture   bool
-	known   map[string]bool
+	panicEv            string
+	opNo               int
+	drawsDone          int
+	drawBusy           bool
+	capture            bool
+	known              map[string]bool
 }
 
 func init() {
